@@ -10,6 +10,7 @@ import (
 	"os"
 	"os/exec"
 	"path/filepath"
+	"sort"
 	"strings"
 	"sync"
 	"time"
@@ -53,6 +54,7 @@ type SMT struct {
 	base     string
 	timeoutQ int
 	timeoutT int
+	recFns   map[string]*SpecFn
 }
 
 type condChunk struct {
@@ -90,6 +92,33 @@ func newSMT(pre *Prelude, tier string, seed int) (*SMT, error) {
 		}
 	}
 	s.base = base.String()
+	s.recFns = map[string]*SpecFn{}
+	for _, fn := range pre.Funcs {
+		if fn.Rec {
+			s.recFns[fn.Name] = fn
+		}
+	}
+	// recursive spec functions become uninterpreted; their defining equation is
+	// instantiated by the engine on the applications that occur in a query (fuel 2)
+	if len(s.recFns) > 0 {
+		es, err := readSExps(s.base)
+		if err == nil {
+			var b strings.Builder
+			for _, e := range es {
+				if e.IsL && len(e.List) > 0 && e.List[0].Atom == "define-fun-rec" {
+					var ps []string
+					for _, pr := range e.List[2].List {
+						ps = append(ps, pr.List[1].String())
+					}
+					fmt.Fprintf(&b, "(declare-fun %s (%s) %s)\n", e.List[1].Atom, strings.Join(ps, " "), e.List[3].String())
+					continue
+				}
+				b.WriteString(e.String())
+				b.WriteByte('\n')
+			}
+			s.base = b.String()
+		}
+	}
 	return s, nil
 }
 
@@ -121,6 +150,39 @@ func (m *Machine) buildQuery(s *SMT, o *Obligation) string {
 				facts = append(facts, line)
 				all += line
 				changed = true
+			}
+		}
+	}
+	// unfold recursive spec functions on the applications present (two rounds)
+	if len(s.recFns) > 0 {
+		done := map[string]bool{}
+		for round := 0; round < 2; round++ {
+			es, err := readSExps(all)
+			if err != nil {
+				break
+			}
+			apps := map[string]*SExp{}
+			for _, e := range es {
+				findApps(e, s.recFns, apps)
+			}
+			var keys []string
+			for k := range apps {
+				if !done[k] {
+					keys = append(keys, k)
+				}
+			}
+			sort.Strings(keys)
+			for _, k := range keys {
+				done[k] = true
+				a := apps[k]
+				fn := s.recFns[a.List[0].Atom]
+				sub := map[string]string{}
+				for i, pn := range fn.PNames {
+					sub[pn] = a.List[i+1].String()
+				}
+				line := fmt.Sprintf("(assert (= %s %s))\n", k, fn.Body.substitute(sub))
+				facts = append(facts, line)
+				all += line
 			}
 		}
 	}
